@@ -384,6 +384,12 @@ func (db *DB) insertOrUpdate(s *Schema, o Object, commit bool) (err error) {
 		return
 	}
 
+	// an object which cannot be serialized must be refused before
+	// it has any effect on the index
+	if _, err = json.Marshal(o); err != nil {
+		return
+	}
+
 	if err = s.index(o); err != nil {
 		return
 	}
@@ -899,6 +905,11 @@ func (db *DB) InsertOrUpdateMany(objects ...Object) (n int, err error) {
 		// validate object before insertion
 		if err = o.Validate(); err != nil {
 			err = validationErr(o, err)
+			return
+		}
+
+		// an object which cannot be serialized makes the batch fail
+		if _, err = json.Marshal(o); err != nil {
 			return
 		}
 
